@@ -42,6 +42,8 @@ def obj_replay(c, rt, plugin, jsonl, nslots, label, parts=4):
     cmds = [[rt, "obj", "replay", p, "--slots", str(nslots), "--ctx", "1", "--plugin", plugin] for p in pieces]
     tb = ts = known = 0
     for (rc, summ, out), p in zip(lib.run_parallel(cmds, timeout=3000), pieces):
+        if rc == 2 or rc == 124:
+            raise lib.ToolError("adapter reported a tool error / timed out (rc=%s)" % rc)
         if rc != 0 or summ is None:
             c.violation("using plugin-created objects crashed the host (rc=%s) %s" % (rc, label), {"file": p, "label": label})
             continue
